@@ -117,8 +117,9 @@ pub enum Op {
     /// stop the aggregator process, start a new one on the same stores
     Restart,
     /// operator action after a blocked chain: stop, bootstrap a new genesis certificate for the current epoch
-    /// (from the signers registered for it, as `genesis bootstrap` does), start
-    ReGenesis,
+    /// (from the signers registered for it, as `genesis bootstrap` does), start. `force: false` = only when the
+    /// state machine reports that it is blocked by an epoch gap (the situation the action exists for).
+    ReGenesis { force: bool },
 }
 
 impl Op {
@@ -155,7 +156,7 @@ impl Op {
             }
             Op::Expire(_) => "X".into(),
             Op::Restart => "Z".into(),
-            Op::ReGenesis => "G".into(),
+            Op::ReGenesis { .. } => "G".into(),
         }
     }
 }
@@ -164,7 +165,7 @@ fn mask_strategy(n: u8) -> impl Strategy<Value = u16> {
     let full = (1u16 << n) - 1;
     prop_oneof![
         5 => Just(full),
-        4 => (1u16..=full),
+        4 => 1u16..=full,
         1 => Just(0u16),
     ]
 }
@@ -209,9 +210,9 @@ pub fn op_strategy_c14(n: u8) -> impl Strategy<Value = Op> {
                prop_oneof![5 => Just(RegEpoch::Current), 3 => Just(RegEpoch::Stale), 1 => Just(RegEpoch::Ahead)])
             .prop_map(|(mask, keygen, when)| Op::Register { mask, keygen, when }),
         36 => sign_strategy_c14(n).prop_map(Op::Sign),
-        3 => any::<u16>().prop_map(Op::Expire),
-        3 => Just(Op::Restart),
-        1 => Just(Op::ReGenesis),
+        2 => any::<u16>().prop_map(Op::Expire),
+        4 => Just(Op::Restart),
+        1 => Just(Op::ReGenesis { force: true }),
     ]
 }
 
@@ -240,6 +241,11 @@ pub struct SubRec {
     /// a row with this label and this very signature existed right after the submission
     pub stored: bool,
     pub outcome: Submitted,
+    /// the signature is cryptographically valid for its producer, the target's open message and the key set of
+    /// the target's epoch (None: no open message existed at that moment)
+    pub valid_for_producer: Option<bool>,
+    /// (label class, source class, inlet, target class)
+    pub class: String,
 }
 
 #[derive(Default)]
@@ -265,6 +271,12 @@ pub struct RunOpts {
     pub rows: bool,
     /// also run the mithril-client verifier on the HTTP view (I1)
     pub client_verifier: bool,
+    /// C16: a party may be listed in `metadata.signers` iff *its own key* produced a valid signature of the message
+    /// that was submitted under whatever name (C14 uses the stricter "submitted under its own name", its labels
+    /// being honest by construction)
+    pub signers_by_true_key: bool,
+    /// C16: a tick in SIGNING must certify when the signatures honest parties got stored reach the quorum alone
+    pub expect_certificate_on_honest_quorum: bool,
 }
 
 pub struct Run {
@@ -277,6 +289,7 @@ pub struct Run {
     pub violation: Option<(String, String)>,
     pub op_index: usize,
     genesis_signer: GenesisSigner,
+    trace_labels: Vec<String>,
 }
 
 struct MapRetriever(BTreeMap<String, Certificate>);
@@ -332,6 +345,7 @@ impl Run {
             violation: None,
             op_index: 0,
             genesis_signer: GenesisSigner::create_deterministic_signer(),
+            trace_labels: vec![],
         };
         let ok = run.insert_genesis().await;
         assert!(ok, "initial genesis certificate");
@@ -340,7 +354,9 @@ impl Run {
     }
 
     pub fn label(&mut self, l: impl Into<String>) {
-        self.labels.insert(l.into());
+        let l = l.into();
+        self.trace_labels.push(l.clone());
+        self.labels.insert(l);
     }
 
     pub fn violate(&mut self, key: &str, what: String) {
@@ -412,7 +428,20 @@ impl Run {
         match op {
             Op::Tick(n) => {
                 for _ in 0..*n {
+                    let must = if self.opts.expect_certificate_on_honest_quorum { self.must_certify_next().await } else { None };
                     let r = self.node.as_mut().expect("node").tick().await;
+                    if let Some(t) = must {
+                        let certified = matches!(self.node().open_message(&t).await, Ok(Some(om)) if om.is_certified);
+                        if !certified {
+                            let err = r.clone().err().unwrap_or_default();
+                            self.violate(
+                                "honest-quorum-not-certified",
+                                format!("{t:?}: the signatures honest parties got stored reach the quorum on their own, but the cycle did not certify: {}", err.chars().take(300).collect::<String>()),
+                            );
+                            return;
+                        }
+                        self.label("honest-quorum-certified");
+                    }
                     if let Err(e) = &r {
                         let short = if e.contains("not enough signature") { "tick-err:not-enough-signatures" } else { "tick-err:other" };
                         self.label(short);
@@ -464,7 +493,12 @@ impl Run {
                 self.restart().await;
                 self.obs.restarts += 1;
             }
-            Op::ReGenesis => {
+            Op::ReGenesis { force } => {
+                if !*force && self.node().state() != "blocked-epoch-gap" {
+                    self.label("regenesis:not-needed");
+                    self.observe().await;
+                    return;
+                }
                 if let Some(n) = self.node.take() {
                     n.stop().await;
                 }
@@ -480,6 +514,20 @@ impl Run {
             }
         }
         self.observe().await;
+        if std::env::var("VERIF_TRACE").is_ok() {
+            let tp = self.world.time_point().await;
+            eprintln!(
+                "TRACE #{} {:?} -> state={} chain=(e{},i{},b{}) certs={} labels={:?}",
+                self.op_index,
+                op,
+                self.node().state(),
+                tp.epoch,
+                tp.immutable_file_number,
+                tp.chain_point.block_number,
+                self.obs.certs.len(),
+                self.trace_labels.drain(..).collect::<Vec<_>>()
+            );
+        }
     }
 
     pub async fn restart(&mut self) {
@@ -652,6 +700,20 @@ impl Run {
                 && producer == by
                 && s.flavour == Flavour::Valid
                 && (s.idx == IdxList::Matching || s.inlet == Inlet::Dmq);
+            let valid_for_producer = match (open_now.get(&tkey(&t)), self.model.keyset_for_signing_epoch(es)) {
+                (Some((_, m)), Some(proper)) => Some(self.model.verifies_for_party(&proper, producer, &sig, &m.compute_hash())),
+                _ => None,
+            };
+            let sub_class = format!(
+                "{}/{}/{:?}/{class}",
+                match (s.inlet, s.label) {
+                    (Inlet::Dmq, _) | (_, Label::Own) => "own-label",
+                    (_, Label::Other(_)) => "other-label",
+                    (_, Label::Unregistered) => "unregistered-label",
+                },
+                if producer == by { "own-signature" } else { "copied-signature" },
+                s.inlet
+            );
             let times = if s.flavour == Flavour::Duplicate { 2 } else { 1 };
             for _ in 0..times {
                 let outcome = match s.inlet {
@@ -694,6 +756,8 @@ impl Run {
                     honest,
                     stored,
                     outcome,
+                    valid_for_producer,
+                    class: sub_class.clone(),
                 });
             }
         }
@@ -783,6 +847,43 @@ impl Run {
             }
         }
         (parties, indices)
+    }
+
+    /// the parties whose own registered key verifies some signature submitted (under any name) for `t`
+    fn true_signers(&mut self, t: &SignedEntityType, ks: &Arc<KeySet>, message: &str) -> BTreeSet<String> {
+        let mut parties = BTreeSet::new();
+        let subs = self.obs.subs.get(&tkey(t)).cloned().unwrap_or_default();
+        for s in subs {
+            if let Some(q) = self.model.true_signer(ks, &s.sig, message) {
+                parties.insert(self.model.parties[q].party_id.clone());
+            }
+        }
+        parties
+    }
+
+    /// C16 liveness side of "copies do not worsen the outcome": which entity must the next cycle certify?
+    async fn must_certify_next(&mut self) -> Option<SignedEntityType> {
+        if self.node().state() != "signing" {
+            return None;
+        }
+        let tp = self.world.time_point().await;
+        for t in self.types_at(&tp) {
+            let Ok(Some(om)) = self.node().open_message(&t).await else { return None };
+            if om.is_certified {
+                continue;
+            }
+            if om.is_expired || om.expires_at.is_some_and(|d| d < chrono::Utc::now() + chrono::Duration::minutes(5)) {
+                return None;
+            }
+            // this is the message the state machine is signing (first uncertified in its processing order)
+            let subs = self.obs.subs.get(&tkey(&t)).cloned().unwrap_or_default();
+            let mut indices = BTreeSet::new();
+            for s in subs.iter().filter(|s| s.honest && s.stored) {
+                indices.extend(s.sig.to_protocol_signature().get_concatenation_signature_indices());
+            }
+            return if indices.len() as u64 >= self.model.params.k { Some(t) } else { None };
+        }
+        None
     }
 
     async fn check_new_certificate(&mut self, c: &Certificate, stored: &BTreeMap<String, Certificate>) {
@@ -939,7 +1040,10 @@ impl Run {
                 return;
             }
         }
-        let (valid_parties, indices) = self.valid_submissions(&t, &ks, &c.signed_message);
+        let (mut valid_parties, indices) = self.valid_submissions(&t, &ks, &c.signed_message);
+        if self.opts.signers_by_true_key {
+            valid_parties = self.true_signers(&t, &ks, &c.signed_message);
+        }
         for sp in &c.metadata.signers {
             if !valid_parties.contains(&sp.party_id) {
                 self.violate(
